@@ -174,6 +174,19 @@ def run(ctx):
         return
     ctx.fn(F)
     strs = ("param", 1, F.locals[1].get("name") or "")
+    # every print of the print built-in writes what the formatter returns: no path prints an argument directly (a lone
+    # argument is still a format string: its unmatched `%s` markers are dropped by the formatter)
+    okf, whyf, nf = True, "", 0
+    for p in pps:
+        if p.end != "return":
+            continue
+        for e in p.calls():
+            if e["callee"] in PRINT_FNS:
+                nf += 1
+                if not any(mentions(a, lambda t: t[0] == "call" and t[1] == F.path) for a in e["args"]):
+                    okf, whyf = False, "a path of the print built-in writes %s, which is not the formatter's result" % show(e["args"][0])[:80]
+    ctx.ob("R4", "print-goes-through-formatter", okf and nf > 0, ctx.where(P), whyf or
+           "every write of the print built-in prints %s(..) (%d print events)" % (F.name, nf))
     fps = Walker(F, max_visits=3, max_paths=50000, inline=pol).paths()
     ctx.stats["paths_walked"] += len(fps)
     n, bad = 0, None
